@@ -2,4 +2,6 @@
    No definitions, no proofs; compiled on its own so that it still runs when a proof breaks. *)
 From Coq Require Import List String.
 From Muduo Require Import C08_Model Gen_C08.
+Set Printing Depth 1000000.
+Set Printing Width 400.
 Eval vm_compute in (render_report table summaries).
